@@ -467,7 +467,39 @@ def o_options(ctx):
                     out.append(("dup_changes_more", f"{ty}{list(addr)} differs outside merged positions"))
                     break
     out.extend(o_dup_comments(ctx))
+    out.extend(o_image_folder(ctx))
     return out
+
+
+def o_image_folder(ctx):
+    """passing an image folder changes nothing in the returned values: the whole observation
+    (file list, every content attribute, images, core properties, comments) with a folder given at
+    construction equals the one without (one option setting per case, chosen by the package)"""
+    import shutil
+    import tempfile
+
+    import impl_pkg
+    from diff_pkg import canon
+    data, payloads = ctx.get("data"), ctx.get("payloads")
+    if data is None or payloads is None or ctx.get("raw") is None:
+        return []
+    keys = sorted(ctx["raw"])
+    if not keys:
+        return []
+    html, dup = keys[len(data) % len(keys)]
+    tmp = tempfile.mkdtemp(prefix="d2p_c19_")
+    try:
+        import os
+        with_folder = canon(impl_pkg.observe(data, html, dup, payloads, os.path.join(tmp, "img", "sub")))
+    finally:
+        shutil.rmtree(tmp, ignore_errors=True)
+    if with_folder != ctx["raw"][(html, dup)]:
+        from diff_parts import first_diff
+        d = first_diff(with_folder, ctx["raw"][(html, dup)])
+        names = {1: "content", 2: "content", 3: "core_properties", 4: "images", 5: "comments"}
+        where = names.get(d[0][0], "value") if d and d[0] else "value"
+        return [("folder_changes_values", f"passing an image folder changes the returned {where} (html={html}, dup={dup})")]
+    return []
 
 
 def o_dup_comments(ctx):
